@@ -21,11 +21,15 @@ class P(vlib.Prop):
         "InstalledSize sums do not overflow uint64",
         "a budget of 0 yields one group plus the top layer (the code's stated intent), read as within 'budget plus the top layer' only for budget >= 1",
     )
-    level_text = ("Theorems about an executable model of groupByOriginAndSize/merge/replacesGroup and splitLayers/alignStacks, for every package list, budget, "
-                  "tree and ownership map: group count <= max(budget,1); a negative budget yields no groups (panic); each non-directory entry of the walk is "
-                  "emitted exactly once, unchanged, in its owner's layer or the top layer; in every layer the parent directories precede; applying the layers in "
-                  "order gives the single-layer filesystem. The model is tied to the code by differential comparison over repeated runs (map order) and the "
-                  "validators are run on independently untarred layers.")
+    level_text = ("Proved, about an executable model of groupByOriginAndSize/merge/replacesGroup and splitLayers/alignStacks, for every package list with distinct "
+                  "names, every budget, every ownership map and every list of entries: c10_group_count (at most max(budget,1) groups, any budget), "
+                  "c10_negative_budget_one_group (the code after fix d47e591; a panic is tagged viol:grouping-panics), c10_groups_partition_partial (each package in exactly one group, for EVERY iteration order of replaceMap and "
+                  "of maps.Values(byOrigin)), c10_each_file_once (the non-directory entries of layer i are exactly, in order, once and unchanged, those whose owner's group "
+                  "is i, top layer for unowned; every entry incl. directories is written unchanged to its own layer), c10_flatten_partial (ingredients of flattening that "
+                  "need no stack invariant). NOT proved: c10_layers_wellformed and the equation of c10_flatten (they need the main-stack/layer-stack chain invariant), "
+                  "same-origin/replaces co-location and full order-invariance of the grouping; these are computed on the implementation's real output on every run by the "
+                  "validators (reference extractor on the concatenated layers = single-layer tree; per-layer parent directories; grouping clauses; 8 repetitions per input). "
+                  "The validators for C10 are boolean transcriptions of LayersOk/GroupsOk without a proved equivalence (C06's validator has one).")
     level_note = ("trusted: Coq kernel, Go harness/printer and its tar reader; modelled not verified: Go text of layers.go, the apk version functions (tabulated), "
                   "archive/tar and pgzip; correspondence is differential testing; end-to-end through Context.BuildLayers with real packages is not run")
     design_ref = "DESIGN.md 7 C10/C06, Appendix A.3"
